@@ -1033,7 +1033,7 @@ LEGS = [
     Leg("machine", run=run_machine,
         gen=lambda tier: machine_case(150 if tier == "quick" else 400),
         quick=1200, thorough=12000, shards_quick=12, shards_thorough=16,
-        nt_floor=0.3,
+        nt_floor=0.2,
         rule="histories of <=150 (quick) / <=400 (thorough) application calls "
              "and single exchanges on one connection, link MIU 128..2175 and "
              "connection MIU per side, RW 0..15 per side, aggregation on/off "
